@@ -1303,3 +1303,184 @@ def srcStep (s : BSt) (cx : List DistanceMode) : Op → (BSt × Option Err) × L
   | .boundsNum _ _ _ => ((s, none), cx)
 
 end GscribModel.MotionTie
+
+namespace GscribModel.MotionTie
+
+/-- only linear moves call hooks -/
+theorem step_calls_nil (b : B) (op : Op) (h : ∀ r p ps hh, op ≠ .move r p ps hh ∧ op ≠ .moveAbs r p ps hh) : (step b op).calls = [] := by
+  cases op <;> simp only [step, stepSetAxis, stepHome, stepProbe, stepHalt, stepSetDist, stepToolOff, stepPowerOff, stepCoolOff, reject, accept] <;>
+    first
+    | (exfalso; exact (h _ _ _ _).1 rfl)
+    | (exfalso; exact (h _ _ _ _).2 rfl)
+    | (repeat' split) <;> rfl
+
+/-- the stack of open mode contexts is touched by entering and leaving a context only -/
+theorem step_ctx (b : B) (op : Op) (h1 : ∀ r, op ≠ .enterCtx r) (h2 : op ≠ .exitCtx) : (step b op).b.ctx = b.ctx := by
+  cases op <;> simp only [step, stepMove, stepMoveAbs, stepSetAxis, stepHome, stepProbe, stepHalt, stepSetDist, stepToolOff, stepPowerOff,
+      stepCoolOff, reject, accept] <;>
+    first
+    | (exfalso; exact h1 _ rfl)
+    | (exfalso; exact h2 rfl)
+    | ((repeat' split) <;> first | rfl | (simp only [B.commitAxes, B.track]; (repeat' split) <;> rfl))
+
+end GscribModel.MotionTie
+
+open GscribModel.MotionTie in
+/-- **One step of any history**: for every operation of the model whose counterpart is translated (all but `set_bounds`, which
+    `BoundsTie` ties at the level of the bounds manager), the model's `step` agrees with the translated command run from `absB b`,
+    and the saved modes of the open contexts stay in step. -/
+theorem MotionTie_step (b : B) (op : Op) (hok : OpOk b op) :
+    AgreesM (step b op) (srcStep (absB b) (b.ctx.map dmOf) op).1 ∧
+    (srcStep (absB b) (b.ctx.map dmOf) op).2 = (step b op).b.ctx.map dmOf := by
+  have nc : ∀ op', (∀ r p ps hh, op' ≠ Op.move r p ps hh ∧ op' ≠ Op.moveAbs r p ps hh) → (step b op').calls = [] := step_calls_nil b
+  cases op with
+  | move r p ps h =>
+    obtain ⟨⟨req, rfl⟩, hd⟩ := hok
+    refine ⟨?_, by rw [step_ctx b _ (by simp) (by simp)]; rfl⟩
+    cases r
+    · simp only [srcStep, ofPt_fin, Bool.false_eq_true, if_false] at hd ⊢; exact MotionTie_move b req ps h hd
+    · simp only [srcStep, ofPt_fin, if_true] at hd ⊢; exact MotionTie_rapid b req ps h hd
+  | moveAbs r p ps h =>
+    obtain ⟨⟨req, rfl⟩, hs, hd, hd'⟩ := hok
+    refine ⟨?_, by rw [step_ctx b _ (by simp) (by simp)]; rfl⟩
+    cases r
+    · simp only [srcStep, ofPt_fin, Bool.false_eq_true, if_false]; exact MotionTie_move_absolute b req ps h hs hd (hd' rfl)
+    · simp only [srcStep, ofPt_fin, if_true]; exact MotionTie_rapid_absolute b req ps h hs hd
+  | setAxis p ps =>
+    obtain ⟨req, rfl⟩ := hok
+    exact ⟨by simp only [srcStep, ofPt_fin]; exact MotionTie_set_axis b req ps 0, by rw [step_ctx b _ (by simp) (by simp)]; rfl⟩
+  | home p ps =>
+    obtain ⟨req, rfl⟩ := hok
+    exact ⟨by simp only [srcStep, ofPt_fin]; exact MotionTie_auto_home b req ps 0, by rw [step_ctx b _ (by simp) (by simp)]; rfl⟩
+  | probe m p ps =>
+    obtain ⟨⟨req, rfl⟩, hd⟩ := hok
+    exact ⟨by simp only [srcStep, ofPt_fin]; exact MotionTie_probe b m req ps 0 hd, by rw [step_ctx b _ (by simp) (by simp)]; rfl⟩
+  | setDist r => exact ⟨agreesB_M _ b _ (BuilderTie_distance_mode b r).1 (nc _ (by simp)), by rw [step_ctx b _ (by simp) (by simp)]; rfl⟩
+  | setDistBogus => exact ⟨agreesB_M _ b _ (BuilderTie_distance_mode b false).2 (nc _ (by simp)), by rw [step_ctx b _ (by simp) (by simp)]; rfl⟩
+  | enterCtx r =>
+    have hc := (MotionTie_contexts b r 0).1
+    simp only at hc
+    obtain ⟨h1, h2, h3, h4, h5⟩ := hc
+    simp only [srcStep, h1]
+    refine ⟨⟨h4, ?_, h3, ?_⟩, by rw [h5]; rfl⟩
+    · rw [h2]
+      have : (if r then GCodeCore.relative_mode_enter (absB b) 0 else GCodeCore.absolute_mode_enter (absB b) 0).1.calls = [] := by
+        have := congrArg BSt.calls h2; simpa [absB] using this.symm
+      generalize (if r then GCodeCore.relative_mode_enter (absB b) 0 else GCodeCore.absolute_mode_enter (absB b) 0).1 = g at this ⊢
+      cases g; simp_all
+    · have : (if r then GCodeCore.relative_mode_enter (absB b) 0 else GCodeCore.absolute_mode_enter (absB b) 0).1.calls = [] := by
+        have := congrArg BSt.calls h2; simpa [absB] using this.symm
+      rw [this, nc _ (by simp)]
+  | exitCtx =>
+    cases hcx : b.ctx with
+    | nil => simp only [srcStep, hcx, List.map_nil, step]; exact ⟨⟨rfl, rfl, rfl, rfl⟩, by simp [accept, hcx]⟩
+    | cons prev rest =>
+      obtain ⟨h1, _, h3⟩ := (MotionTie_contexts b false 0).2 prev rest hcx
+      simp only [srcStep, List.map_cons]
+      exact ⟨h1, by rw [h3]⟩
+  | feed v => exact ⟨agreesB_M _ b _ (BuilderTie_feed b v hok) (nc _ (by simp)), by rw [step_ctx b _ (by simp) (by simp)]; rfl⟩
+  | power v => exact ⟨agreesB_M _ b _ (BuilderTie_power b v hok) (nc _ (by simp)), by rw [step_ctx b _ (by simp) (by simp)]; rfl⟩
+  | toolOn m v => exact ⟨agreesB_M _ b _ (BuilderTie_tool_on b m v hok) (nc _ (by simp)), by rw [step_ctx b _ (by simp) (by simp)]; rfl⟩
+  | toolOff => exact ⟨agreesB_M _ b _ (BuilderTie_tool_off b) (nc _ (by simp)), by rw [step_ctx b _ (by simp) (by simp)]; rfl⟩
+  | powerOn m v => exact ⟨agreesB_M _ b _ (BuilderTie_power_on b m v hok) (nc _ (by simp)), by rw [step_ctx b _ (by simp) (by simp)]; rfl⟩
+  | powerOff => exact ⟨agreesB_M _ b _ (BuilderTie_power_off b) (nc _ (by simp)), by rw [step_ctx b _ (by simp) (by simp)]; rfl⟩
+  | coolOn m => exact ⟨agreesB_M _ b _ (BuilderTie_coolant_on b m) (nc _ (by simp)), by rw [step_ctx b _ (by simp) (by simp)]; rfl⟩
+  | coolOff => exact ⟨agreesB_M _ b _ (BuilderTie_coolant_off b) (nc _ (by simp)), by rw [step_ctx b _ (by simp) (by simp)]; rfl⟩
+  | toolChange m n => exact ⟨agreesB_M _ b _ (BuilderTie_tool_change b m n) (nc _ (by simp)), by rw [step_ctx b _ (by simp) (by simp)]; rfl⟩
+  | halt m ps => exact ⟨MotionTie_halt b m ps 0 hok, by rw [step_ctx b _ (by simp) (by simp)]; rfl⟩
+  | ehalt reset => exact ⟨MotionTie_emergency_halt b reset 0, by rw [step_ctx b _ (by simp) (by simp)]; rfl⟩
+  | bed v => exact ⟨agreesB_M _ b _ (BuilderTie_bed b v) (nc _ (by simp)), by rw [step_ctx b _ (by simp) (by simp)]; rfl⟩
+  | hotend v => exact ⟨agreesB_M _ b _ (BuilderTie_hotend b v) (nc _ (by simp)), by rw [step_ctx b _ (by simp) (by simp)]; rfl⟩
+  | chamber v => exact ⟨agreesB_M _ b _ (BuilderTie_chamber b v) (nc _ (by simp)), by rw [step_ctx b _ (by simp) (by simp)]; rfl⟩
+  | sleep v => exact ⟨agreesB_M _ b _ (BuilderTie_sleep b v) (nc _ (by simp)), by rw [step_ctx b _ (by simp) (by simp)]; rfl⟩
+  | fan v n => exact ⟨agreesB_M _ b _ (BuilderTie_fan b v n) (nc _ (by simp)), by rw [step_ctx b _ (by simp) (by simp)]; rfl⟩
+  | units i => exact ⟨MotionTie_length_units b i 0 hok, by rw [step_ctx b _ (by simp) (by simp)]; rfl⟩
+  | plane n => exact ⟨agreesB_M _ b _ (BuilderTie_plane b n) (nc _ (by simp)), by rw [step_ctx b _ (by simp) (by simp)]; rfl⟩
+  | direction c => exact ⟨agreesB_M _ b _ ((BuilderTie_plain b).1 c) (nc _ (by simp)), by rw [step_ctx b _ (by simp) (by simp)]; rfl⟩
+  | resolution q => exact ⟨agreesB_M _ b _ ((BuilderTie_plain b).2.2.2 q) (nc _ (by simp)), by rw [step_ctx b _ (by simp) (by simp)]; rfl⟩
+  | emode r => exact ⟨agreesB_M _ b _ (BuilderTie_extrusion_mode b r) (nc _ (by simp)), by rw [step_ctx b _ (by simp) (by simp)]; rfl⟩
+  | fmode n => exact ⟨agreesB_M _ b _ (BuilderTie_feed_mode b n) (nc _ (by simp)), by rw [step_ctx b _ (by simp) (by simp)]; rfl⟩
+  | timeUnits t => exact ⟨agreesB_M _ b _ ((BuilderTie_plain b).2.1 t) (nc _ (by simp)), by rw [step_ctx b _ (by simp) (by simp)]; rfl⟩
+  | tempUnits k => exact ⟨agreesB_M _ b _ ((BuilderTie_plain b).2.2.1 k) (nc _ (by simp)), by rw [step_ctx b _ (by simp) (by simp)]; rfl⟩
+  | query t => exact ⟨agreesB_M _ b _ (BuilderTie_query b t) (nc _ (by simp)), by rw [step_ctx b _ (by simp) (by simp)]; rfl⟩
+  | comment => exact ⟨MotionTie_comment b 0, by rw [step_ctx b _ (by simp) (by simp)]; rfl⟩
+  | addHook hk => exact ⟨(MotionTie_hooks b hk 0).1, by rw [step_ctx b _ (by simp) (by simp)]; rfl⟩
+  | removeHook hk => exact ⟨(MotionTie_hooks b hk 0).2, by rw [step_ctx b _ (by simp) (by simp)]; rfl⟩
+  | boundsAxes lo hi => exact hok.elim
+  | boundsNum k lo hi => exact hok.elim
+
+namespace GscribModel.MotionTie
+
+/-- the side conditions along a whole history -/
+def HistOk (b : B) : List Op → Prop
+  | [] => True
+  | op :: ops => OpOk b op ∧ HistOk (step b op).b ops
+
+/-- a whole history on the translated source: each command starts with an empty log (`out`, `calls` are per-call logs of what
+    was handed to `GCodeCore.write` / to the hooks; no translated command reads them) and what it logged is collected -/
+def srcRun (s : BSt) (cx : List DistanceMode) : List Op → BSt × List SStmt
+  | [] => ({ s with out := [], calls := [] }, [])
+  | op :: ops =>
+    let g := srcStep { s with out := [], calls := [] } cx op
+    let r := srcRun g.1.1 g.2 ops
+    (r.1, g.1.1.out ++ r.2)
+
+end GscribModel.MotionTie
+
+open GscribModel.MotionTie in
+/-- **Every history**: from any builder value, running the *translated source* of the commands of a history yields the builder the
+    model's `run` yields and the same statements in the same order (instruction, axis words, other words).  Every theorem about
+    `run` (C01_agree_run, C02_run_safe, C03, C05_history_erasure, C07_mirror_run, C11, C20 …) therefore speaks about what the
+    translated source writes and tracks. -/
+theorem MotionTie_run (ops : List Op) : ∀ (b : B), HistOk b ops →
+    absB (run b ops).1 = (srcRun (absB b) (b.ctx.map dmOf) ops).1 ∧
+    (run b ops).2.map view = (srcRun (absB b) (b.ctx.map dmOf) ops).2.map conv := by
+  induction ops with
+  | nil => intro b _; exact ⟨rfl, rfl⟩
+  | cons op ops ih =>
+    intro b hok
+    obtain ⟨h1, h2⟩ := hok
+    obtain ⟨⟨_, hb, hs, _⟩, hc⟩ := MotionTie_step b op h1
+    have e0 : ({ absB b with out := [], calls := [] } : BSt) = absB b := rfl
+    have ih' := ih (step b op).b h2
+    simp only [run, srcRun, e0]
+    rw [hc]
+    have e1 : (srcStep (absB b) (b.ctx.map dmOf) op).1.1 =
+        { (srcStep (absB b) (b.ctx.map dmOf) op).1.1 with out := (srcStep (absB b) (b.ctx.map dmOf) op).1.1.out,
+                                                          calls := (srcStep (absB b) (b.ctx.map dmOf) op).1.1.calls } := rfl
+    have key : ∀ (g : BSt) (cx : List DistanceMode) (os : List Op), absB (step b op).b = { g with out := [], calls := [] } →
+        srcRun g cx os = srcRun (absB (step b op).b) cx os := by
+      intro g cx os hg
+      cases os with
+      | nil => simp only [srcRun, hg]
+      | cons o os' =>
+        have e2 : ({ absB (step b op).b with out := [], calls := [] } : BSt) = absB (step b op).b := rfl
+        simp only [srcRun, ← hg, e2]
+    rw [key _ _ _ hb]
+    exact ⟨ih'.1, by simp only [List.map_append, hs, ih'.2]⟩
+
+namespace GscribModel.MotionTie
+/-- the two state conditions `OpOk` asks for are invariants of every history -/
+def SyncInv (b : B) : Prop := b.srel = b.rel ∧ 0 < b.res
+
+theorem sync_step (b : B) (op : Op) (h : SyncInv b) : SyncInv (step b op).b := by
+  obtain ⟨h1, h2⟩ := h
+  cases op <;> simp only [step, stepMove, stepMoveAbs, stepSetAxis, stepHome, stepProbe, stepHalt, stepSetDist, stepToolOff, stepPowerOff,
+      stepCoolOff, reject, accept, SyncInv] <;>
+    ((repeat' split) <;> first
+      | exact ⟨h1, h2⟩
+      | (simp only [B.commitAxes, B.track]; (repeat' split) <;> first | exact ⟨h1, h2⟩ | (constructor <;> first | rfl | assumption | simp_all))
+      | (constructor <;> first | rfl | assumption | (exact Rat.not_le.mp (by assumption)) | simp_all))
+
+theorem sync_init : SyncInv {} := ⟨rfl, by decide +kernel⟩
+end GscribModel.MotionTie
+
+/-- non-vacuity of `MotionTie_run`: a history with a context, a bypass move and a rejected move, run on the translated source -/
+example :
+    let ops : List Op := [.setAxis ⟨some (.fin 0), some (.fin 0), some (.fin 0)⟩ [], .enterCtx true, .move false ⟨some (.fin 1), none, none⟩ [("F", .fin 100)] 0,
+      .moveAbs true ⟨none, some (.fin 5), none⟩ [] 0, .move false ⟨some .nan, none, none⟩ [] 0, .exitCtx, .ehalt false]
+    (GscribModel.MotionTie.srcRun (absB {}) [] ops).2.map conv =
+      [(["G92"], ⟨some 0, some 0, some 0⟩, []), (["G91"], {}, []), (["G1"], ⟨some 1, none, none⟩, [("F", 100)]),
+       (["G90"], {}, []), (["G0"], ⟨none, some 5, none⟩, []), (["G91"], {}, []), (["G90"], {}, []),
+       (["M05"], {}, []), (["M09"], {}, []), ([], {}, []), (["M00"], {}, [])] ∧
+    (GscribModel.MotionTie.srcRun (absB {}) [] ops).1._current_axes = ⟨some 1, some 5, some 0⟩ := by decide +kernel
